@@ -186,7 +186,11 @@ func stacklessWriteGzip(ctx any) {
 	stacklessWriteGzipOnce.Do(func() {
 		stacklessWriteGzipFunc = stackless.NewFunc(nonblockingWriteGzip)
 	})
-	stacklessWriteGzipFunc(ctx)
+	if !stacklessWriteGzipFunc(ctx) {
+		// The stackless worker queue is full: compress on the caller's goroutine
+		// instead of silently dropping the data.
+		nonblockingWriteGzip(ctx)
+	}
 }
 
 func nonblockingWriteGzip(ctxv any) {
@@ -293,7 +297,11 @@ func stacklessWriteDeflate(ctx any) {
 	stacklessWriteDeflateOnce.Do(func() {
 		stacklessWriteDeflateFunc = stackless.NewFunc(nonblockingWriteDeflate)
 	})
-	stacklessWriteDeflateFunc(ctx)
+	if !stacklessWriteDeflateFunc(ctx) {
+		// The stackless worker queue is full: compress on the caller's goroutine
+		// instead of silently dropping the data.
+		nonblockingWriteDeflate(ctx)
+	}
 }
 
 func nonblockingWriteDeflate(ctxv any) {
